@@ -19,8 +19,8 @@ Check C05_gc_sync_never_errors : forall (A : Type) (add : A -> entry -> A) acc0 
 Check C05_collector_eq_spec_weakly_sorted : forall p now es, wsorted es -> collect p es now = Some (map kr (gc_spec p now es)).
 Check C05_gc_sync_never_errors_weakly_sorted : forall (A : Type) (add : A -> entry -> A) acc0 p es, wsorted es -> gc_walk add acc0 p es <> WOutOfSync.
 Check C05_walk_weakly_sorted_guarantee : forall (A : Type) (add : A -> entry -> A) acc0 p es, wsorted es -> exists written dropped, gc_walk add acc0 p es = WOk written (fold_left add dropped acc0) /\ map kr written = map kr (gc_spec p 0 es) /\ sublist written es /\ Permutation es (written ++ dropped).
-Check C05_walk_writes_spec_refuted : exists p es, wsorted es /\ match gc_walk (fun (a : unit) _ => a) tt p es with | WOk written _ => written <> gc_spec p 0 es /\ exists e, In e (gc_spec p 0 es) /\ ~ In e written | WOutOfSync => False end.
-Check C05_walk_writes_spec_outside_known : forall (A : Type) (add : A -> entry -> A) acc0 p es, wsorted es -> ~ Known_duplicate_keyref es -> gc_walk add acc0 p es = WOk (gc_spec p 0 es) (fold_left add (gc_dropped p 0 es) acc0).
+Check C05_walk_needs_distinct_pairs : exists p es, wsorted es /\ match gc_walk (fun (a : unit) _ => a) tt p es with | WOk written _ => written <> gc_spec p 0 es /\ exists e, In e (gc_spec p 0 es) /\ ~ In e written | WOutOfSync => False end.
+Check C05_walk_writes_spec_without_adjacent_duplicates : forall (A : Type) (add : A -> entry -> A) acc0 p es, wsorted es -> ~ duplicate_pairs es -> gc_walk add acc0 p es = WOk (gc_spec p 0 es) (fold_left add (gc_dropped p 0 es) acc0).
 Check C05_discard_is_dropped : forall H, hash_ok H -> forall p es, sorted es -> gc_walk_setsum H p es = WOk (gc_spec p 0 es) (entries_setsum H (gc_dropped p 0 es)).
 Check C05_written_plus_dropped_is_input : forall p now es, sorted es -> Permutation es (gc_spec p now es ++ gc_dropped p now es).
 Check C05_books_balance : forall H, hash_ok H -> forall p es, sorted es -> entries_setsum H es = add_state (entries_setsum H (gc_spec p 0 es)) (entries_setsum H (gc_dropped p 0 es)).
